@@ -1,5 +1,5 @@
 (* What "the output is a matched pair" means for two label maps, and the soundness of the walk
-   _maps_are_matched of the proposed repair: if the walk succeeds over a sound matching_info, the
+   _maps_are_matched (fix 97589e3): if the walk succeeds over a sound matching_info, the
    two label maps are a matched pair. *)
 From Coq Require Import ZArith List Bool Lia.
 From CSS Require Import Base.PyList Parallel.Model Parallel.Basics Parallel.First Parallel.Second.
